@@ -17,9 +17,9 @@ def run(ctx):
     sp, tr, out = netw.soup(ctx, 20, 20)
     if sp is not None:
         ok, msg, soup_s = sp
-        if not ok and "newnick" in msg:
+        if soup_s["bad_newnick"]:
             rp = ctx.save_replay(tr, "c17-newnick-trace.ndjson")
-            ctx.violation("net/newnick", "the default nick generator does not yield a different nick of the same length differing only in the last byte: " + msg[:400], rp)
+            ctx.violation("net/newnick", "the default nick generator does not yield a different nick of the same length differing only in the last byte: %d of the swept inputs, e.g. %s" % (soup_s["bad_newnick"], [e for e in soup_s["examples"] if "newnick" in e][:2]), rp)
     ev = {}
     for _, s in res:
         for k, v in s["event_counts"].items():
